@@ -201,17 +201,14 @@ def scn_core(p, res):
         elif status == 'unknown':
             res.undecided('%s: %s' % (fq, det), SCN_CORE_MSG.get(name, 'cursor method'))
         else:
+            from .tablecheck import _judge
             for a, want, c in det[:2]:
                 have = c.outcome()
-                # same steps, different operands  /  a cursor step added or dropped  ->  the method computes something else
-                wsk = [x.split(' = ')[0] if x.startswith('store ') else x.split(' ')[0] for x in want.split(' ; ')]
-                hsk = [x.split(' = ')[0] if x.startswith('store ') else x.split(' ')[0] for x in have.split(' ; ')]
-                pos_w = [x for x in wsk if x.startswith('store') and x.endswith('.pos')]
-                pos_h = [x for x in hsk if x.startswith('store') and x.endswith('.pos')]
-                if wsk == hsk or pos_w != pos_h:
-                    res.bad(F('SCN-CORE', f, f.node, '%s  [%s]' % (have, c.cond_str()), SCN_CORE_MSG.get(name, 'cursor method') + '; reviewed behaviour for this case: ' + want))
+                kind, why = _judge(want, have)
+                if kind == 'bad':
+                    res.bad(F('SCN-CORE', f, f.node, '%s  [%s]' % (have, c.cond_str()), SCN_CORE_MSG.get(name, 'cursor method') + '; ' + why + '; reviewed behaviour for this case: ' + want))
                 else:
-                    res.undecided('%s [%s]: %s' % (fq, c.cond_str(), have), 'reviewed: ' + want)
+                    res.undecided('%s [%s]: %s' % (fq, c.cond_str(), have), why + ': ' + want)
     # who may write .pos of a cursor: census
     writers = {}
     for f in p.funcs.values():
